@@ -139,7 +139,7 @@ def attrOK (v : Version) (a : B × Sc) : Bool :=
 mutual
   def wfSchema (v : Version) : Schema → Bool
     | .ref _ => true
-    | .node h i p a => h.all (attrOK v) && nodupB (h.map (·.1)) && wfO v i && wfP v p && wfO v a
+    | .node h i p a => h.all (attrOK v) && wfO v i && wfP v p && wfO v a
   def wfO (v : Version) : OTree Attrs → Bool
     | .none => true
     | .some t => wfSchema v t
@@ -156,22 +156,27 @@ def wfParam (v : Version) (p : Param Schema) : Bool :=
 def wfResp (v : Version) (r : Resp Schema) : Bool :=
   validResponseCode r.code && !r.description.isEmpty && (match r.schema with | some x => wfSchema v x | none => true)
 
+def nodupPairs : List (B × B) → Bool
+  | [] => true
+  | x :: xs => !xs.contains x && nodupPairs xs
+
 def wfOperation (v : Version) (o : Operation Schema) : Bool :=
   o.params.all (wfParam v) &&
-  nodupB (o.params.map fun p => p.loc ++ [':'] ++ p.name) &&     -- uniqueItems; a parameter is (in, name)
+  nodupPairs (o.params.map fun p => (p.loc, p.name)) &&     -- uniqueItems; a parameter is (in, name)
   (match o.body with | some x => wfSchema v x | none => true) &&
-  !o.resps.isEmpty && o.resps.all (wfResp v) && nodupB (o.resps.map (·.code))
+  !o.resps.isEmpty && o.resps.all (wfResp v)
 
 def members : List B := [s "get", s "put", s "post", s "delete", s "options", s "head", s "patch", s "trace"]
 
+/-- (Uniqueness of the keys of `paths`, of a path item, of `responses`, of `components.schemas` and of a
+    schema object is not part of WF: they are JSON object keys.) -/
 def wfDoc (v : Version) (d : Doc Schema) : Bool :=
   (match v with
    | .v30 => hasPrefix (s "3.0.") d.openapi && d.dialect.isEmpty
    | .v31 => hasPrefix (s "3.1.") d.openapi) &&
   d.paths.all (fun pi => hasPrefix (s "/") pi.1 &&
-    pi.2.all (fun mo => members.contains mo.1 && wfOperation v mo.2) && nodupB (pi.2.map (·.1))) &&
-  nodupB (d.paths.map (·.1)) &&
-  d.schemas.all (fun ks => wfSchema v ks.2) && nodupB (d.schemas.map (·.1))
+    pi.2.all (fun mo => members.contains mo.1 && wfOperation v mo.2)) &&
+  d.schemas.all (fun ks => wfSchema v ks.2)
 
 /-! ## the whole oracle on one produced document -/
 
